@@ -101,7 +101,8 @@ def run_verus_unit(unit, tier, seed):
         fut_twin = ex.submit(verus.run, twin_path, rlimit, None, 4)
         r = fut_main.result(); r["path"] = path
         rt = fut_twin.result(); rt["path"] = twin_path
-    failures, undecided = verus.classify(r, built["text"], built["labels"], fn_names)
+    fn_locs = [(f["name"], f["head"]) for f in built["fns"] if not f.get("is_type")]
+    failures, undecided = verus.classify(r, built["text"], built["labels"], fn_locs)
     res["cmd"] = r["cmd"]
     res["smt"] = verus.smt_summary(r["stats"])
     # stability: a failure only counts if it also fails on two more seeds at doubled rlimit
@@ -111,7 +112,7 @@ def run_verus_unit(unit, tier, seed):
         for s in (7, 31):
             r2 = verus.run(path, rlimit * 2, (seed or 0) + s, 16)
             r2["path"] = path
-            f2, u2 = verus.classify(r2, built["text"], built["labels"], fn_names)
+            f2, u2 = verus.classify(r2, built["text"], built["labels"], fn_locs)
             if u2:
                 undecided += ["(re-run seed+%d) %s" % (s, x) for x in u2]
                 break
@@ -208,6 +209,9 @@ def main(argv=None):
     mine = [u for u in units.values() if prop in u["props"]]
     if a.units:
         mine = [u for u in mine if u["name"] in a.units.split(",")]
+    else:
+        # units still under construction are never part of a registered check
+        mine = [u for u in mine if not u.get("wip") or os.environ.get("VERIF_WIP")]
     if not mine:
         print("no units registered for %s" % prop)
         return 2
